@@ -143,4 +143,54 @@ theorem _call_rcu_refines_env (L : Layout) (id0 : Nat) (fuel : Nat) (env : Env) 
           · have hn' : ¬ (n : Int) % 2 = 0 := by omega
             cr_leaf [hn, hn']
 
+/-- the same, in the form a caller uses after `generalize hE : exec fuel «_call_rcu» _ _ = r` -/
+theorem _call_rcu_run (L : Layout) (id0 : Nat) {fuel : Nat} {env : Env} {inp : List Val} {r : Except String Out}
+    (hE : exec fuel «_call_rcu» env inp = r) (H C : Loc) (fv : Val)
+    (id h : Nat) (k : K) (nest : Nat) (mbv : Int)
+    (h1 : env.vars "head" = some (.ptr H)) (h2 : env.vars "func" = some fv) (h3 : env.vars "crdp" = some (.ptr C))
+    (hcb : L.cb H = some id) (hcrd : L.crd C = some h)
+    (hcfg : env.priv (.glob "CONFIG_RCU_EMIT_LEGACY_MB") = some (.int mbv))
+    (hinp : CallInp inp) :
+    ∃ out, r = .ok out ∧
+      ∃ ls', U.lrun ⟨.enq id h k, nest⟩ (out.events.flatMap (absEv L id0)) = some ls' ∧
+        CallPost env H fv (k.cont h) nest out ls' := by
+  subst hE
+  exact _call_rcu_refines_env L id0 fuel env inp H C fv id h k nest mbv h1 h2 h3 hcb hcrd hcfg hinp
+
+/-- the oracle discipline of `call_rcu`: `_rcu_read_lock()` (any value), `get_call_rcu_data()` returns a helper of the
+layout, then that of `_call_rcu` -/
+def CallRcuInp (L : Layout) (inp : List Val) : Prop :=
+  (∀ v, inp[1]? = some v → ∃ C h, v = .ptr C ∧ L.crd C = some h) ∧ CallInp (inp.drop 2)
+
+theorem call_rcu_refines_env (L : Layout) (fuel : Nat) (env : Env) (inp : List Val) (H : Loc) (fv : Val)
+    (id nest : Nat) (mbv : Int)
+    (h1 : env.vars "head" = some (.ptr H)) (h2 : env.vars "func" = some fv) (hcb : L.cb H = some id)
+    (hcfg : env.priv (.glob "CONFIG_RCU_EMIT_LEGACY_MB") = some (.int mbv))
+    (hinp : CallRcuInp L inp) :
+    ∃ out, exec fuel «call_rcu» env inp = .ok out ∧
+      ∃ ls', U.lrun ⟨.idle, nest⟩ (out.events.flatMap (absEv L id)) = some ls' ∧
+        (out.ctl = .normal ∨ out.ctl = .blocked) ∧
+        (out.ctl = .normal → ls' = ⟨.idle, nest⟩ ∧ out.env.priv (.field H "func") = some fv) := by
+  obtain ⟨hi1, hi⟩ := hinp
+  cases inp with
+  | nil => sexec [«call_rcu»]; simp [absEv, U.lrun, U.lstep]
+  | cons v0 inp =>
+    cases inp with
+    | nil => sexec [«call_rcu»]; simp [absEv, U.lrun, U.lstep, List.flatMap_cons]
+    | cons v1 inp =>
+      obtain ⟨C, h, rfl, hcrd⟩ := hi1 v1 (by simp)
+      sexec [«call_rcu»]
+      generalize hE : exec fuel «_call_rcu» _ _ = r
+      obtain ⟨out, rfl, ls', hl, hc, hp⟩ := _call_rcu_run L id hE H C fv id h .user (nest + 1) mbv
+        (by simp) (by simp) (by simp) hcb hcrd hcfg (by simpa using hi)
+      clear hE
+      rcases out with ⟨evs, oenv, oinp, octl⟩
+      simp only [] at hc hp hl
+      rcases hc with rfl | rfl
+      · obtain ⟨rfl, hf⟩ := hp rfl
+        cases oinp with
+        | nil => simp [absEv, U.lrun, U.lstep, List.flatMap_cons, hcrd, U.lrun_append, hl, K.cont]
+        | cons v2 oinp => simp [absEv, U.lrun, U.lstep, List.flatMap_cons, hcrd, U.lrun_append, hl, K.cont, hf]
+      · simp [absEv, U.lrun, U.lstep, List.flatMap_cons, hcrd, U.lrun_append, hl]
+
 end UrcuVerif.Src.CallRcuR
